@@ -923,7 +923,7 @@ def collect(chk, results, covered, trace):
             if verdict == "trace":
                 trace.append((clause, detail, key))
             elif verdict == "time":
-                tb = chk.extra.setdefault("cpu_s_by_observable", {})
+                tb = chk.extra.setdefault("wall_s_by_observable", {})
                 tb[key[0] + ":" + key[1]] = round(tb.get(key[0] + ":" + key[1], 0.0) + clause, 2)
             elif verdict == "ok":
                 covered.add(key[1:])
@@ -956,6 +956,7 @@ def small_jobs(cases, quick):
         if bad is not None:
             raise common.MachineryError(f"the driver's applier disagrees with Symmetry!Apply on field {bad} "
                                         f"for base {case['base']} word {json.dumps(case['word'])}")
+        _validate_float_applier(base, want, case)
         actd = dict(ta)
         obs = list(case["obs"])
         by_base.setdefault(case["base"], {"cfg": base, "items": [], "label": "small"})["items"].append(
@@ -969,6 +970,24 @@ def small_jobs(cases, quick):
         for k in range(0, len(g["items"]), step):
             jobs.append({"cfg": g["cfg"], "items": g["items"][k:k + step], "label": "small"})
     return jobs
+
+
+def _validate_float_applier(base, want, case):
+    """the floating-point path of the applier (used for the trajectories) on the same case: equal to TLC's
+    transformed configuration up to rounding; a particle sitting exactly on the cell boundary may be re-wrapped to
+    either side (a lattice vector apart)"""
+    fb = dict(base)
+    for k in ("H", "org", "frames", "field", "R", "dia"):
+        fb[k] = np.array(base[k], dtype=float)
+    got, _ = apply_word(fb, case["word"])
+    for k in ("H", "org", "field", "R", "dia"):
+        if not np.allclose(got[k], want[k], rtol=1e-12, atol=1e-9):
+            raise common.MachineryError(f"float applier differs from Symmetry!Apply on {k}: {json.dumps(case['word'])}")
+    diff = got["frames"] - want["frames"]
+    if np.max(np.abs(diff)) > 1e-7:
+        coef = diff @ np.linalg.inv(np.array(want["H"], dtype=float))
+        if not (np.allclose(coef, np.rint(coef), atol=1e-9) and any(g["kind"] == "trans" and g["wrap"] == 1 for g in case["word"])):
+            raise common.MachineryError(f"float applier differs from Symmetry!Apply on frames: {json.dumps(case['word'])}")
 
 
 def select_small(cases, tier):
@@ -1091,7 +1110,7 @@ def traj_jobs(loaded, cases, tier, chk):
             pick = [rng.choice(v) for _, v in sorted(kinds.items())] + rng.sample(twos, min(3, len(twos)))
             budget = OBS_QUICK.get(tid)
         else:
-            pick = ones + rng.sample(twos, min(40, len(twos)))
+            pick = ones + rng.sample(twos, min(12, len(twos)))
             budget = None
         items = []
         for case in pick:
